@@ -44,7 +44,9 @@ def _brute(T, K, cost, beta):
     return best
 
 
-def _table(T, K, cost):
+def _table(T, K, cost, dtype='float64'):
+    if dtype == 'int64':
+        return np.array([[int(v) for v in row] for row in cost], dtype=np.int64).reshape(T, K)
     return np.array([[float(v) for v in row] for row in cost], dtype=np.float64).reshape(T, K)
 
 
@@ -66,7 +68,7 @@ def replay(w):
     # the harness hands the kernel a caller-owned table: read-only in the single-call configurations,
     # one writable table shared by both calls in the scalar-vs-vector configuration
     direct = 'll_0_0' not in w['inputs']
-    table = _table(T, K, cost)
+    table = _table(T, K, cost, (w.get('notes') or {}).get('table_dtype', 'float64'))
     keep = table.copy()
     try:
         if form == 'both':
@@ -93,7 +95,7 @@ def replay(w):
         observed['scalar_form'] = {'path': p_scalar, 'cost': c_scalar}
         if p_scalar != path or not close(c_scalar, c):
             reproduced, sig = True, 'scalar-and-vector-forms-differ'
-    if not np.array_equal(table.view(np.uint64), keep.view(np.uint64)):
+    if not np.array_equal(table.view(np.uint64), keep.view(np.uint64)) if table.dtype == np.float64 else not np.array_equal(table, keep):
         observed['table_after_call'] = table.tolist()
         if form == 'both':
             reproduced, sig = True, 'kernel-overwrites-the-callers-cost-table'
@@ -113,7 +115,7 @@ def validate(witnesses):
         if not all(exact(v) for v in vals):
             skipped += 1
             continue
-        path, c = _run_kernel(T, K, form, cost, beta)
+        path, c = _run_kernel(T, K, form, cost, beta, table=_table(T, K, cost, (w.get('notes') or {}).get('table_dtype', 'float64')))
         checked += 1
         exp_path = [int(p) for p in w['outputs']['path']]
         exp_cost = frac(w['outputs']['cost'])
